@@ -173,31 +173,42 @@ func (set *SortedSet) AddOrUpdate(
 	count := 0
 
 	if strings.EqualFold(inc, "incr") {
-		for _, m := range members {
-			if !set.Contains(m.Value) {
-				// If the member is not contained, add it with the increment as its Score
-				set.members[m.Value] = MemberObject{
-					Value:  m.Value,
-					Score:  m.Score,
-					Exists: true,
-				}
-				// Always add count because this is the addition of a new element
-				count += 1
-				return count, err
+		// INCR mode: the single member's score is incremented (a new member starts from the increment).
+		// The returned count is 1 when the member was added or incremented and 0 when NX, XX, GT or LT
+		// prevented the operation.
+		m := members[0]
+		if !set.Contains(m.Value) {
+			if strings.EqualFold(policy, "xx") {
+				// Only update existing elements, do not add new elements
+				return 0, nil
 			}
-			if slices.Contains([]Score{Score(math.Inf(-1)), Score(math.Inf(1))}, set.members[m.Value].Score) {
-				return count, errors.New("cannot increment -inf or +inf")
-			}
+			// If the member is not contained, add it with the increment as its Score
 			set.members[m.Value] = MemberObject{
 				Value:  m.Value,
-				Score:  set.members[m.Value].Score + m.Score,
+				Score:  m.Score,
 				Exists: true,
 			}
-			if strings.EqualFold(ch, "ch") {
-				count += 1
-			}
+			return 1, nil
 		}
-		return count, nil
+		if strings.EqualFold(policy, "nx") {
+			// Only add new elements, do not update existing elements
+			return 0, nil
+		}
+		oldScore := set.members[m.Value].Score
+		if slices.Contains([]Score{Score(math.Inf(-1)), Score(math.Inf(1))}, oldScore) {
+			return 0, errors.New("cannot increment -inf or +inf")
+		}
+		newScore := oldScore + m.Score
+		if (strings.EqualFold(comp, "gt") && !(newScore > oldScore)) ||
+			(strings.EqualFold(comp, "lt") && !(newScore < oldScore)) {
+			return 0, nil
+		}
+		set.members[m.Value] = MemberObject{
+			Value:  m.Value,
+			Score:  newScore,
+			Exists: true,
+		}
+		return 1, nil
 	}
 
 	for _, m := range members {
